@@ -1,5 +1,6 @@
 SPECIFICATION Spec
 CONSTANTS MaxLen = 2
+BitSets <- BitsAll
 Fault = "doc"
 INVARIANTS Refines
 CHECK_DEADLOCK FALSE
